@@ -56,6 +56,7 @@ func genC10(seed uint64, tier string) *Plan {
 	}
 	o := AllQ
 	o.Limit = false
+	o.LimitTotal = true
 	o.Shift = false
 	o.NoConst = true
 	o.DataSpan = span
